@@ -421,6 +421,11 @@ func c11Shared(c *Ctx) {
 					agree = false
 				}
 				f := st.FieldsOf(r.Results[0])
+				for k, fv := range st.FieldValsOf(r.Results[0]) {
+					if freshAlloc(st, fv, 0) {
+						f[k] = "<fresh>"
+					}
+				}
 				// paths that handed the object to code that is not explored (option appliers) know less about it;
 				// what they do know must agree
 				small, big := f, got
@@ -463,7 +468,7 @@ func c11Shared(c *Ctx) {
 		strings.HasPrefix(setting(got, rn, "thereafter"), rn+".") && strings.HasSuffix(setting(got, rn, "thereafter"), ".thereafter") && setting(got, rn, "hook") == rn+".hook" && setting(got, rn, "Core") == "With("+rn+".Core, "+w.Params[1].Name()+")"
 	c.Check(ok, "R11.3", w.String(), "shares-budget", w.Pos(), "a derived sampler points at the SAME counters and keeps tick/first/thereafter/hook (%v)", got)
 	got, okN := settings(nw)
-	fresh := func(d string) bool { return d == "newCounters()" || d == "&complit" || strings.HasPrefix(d, "new ") }
+	fresh := func(d string) bool { return d == "<fresh>" }
 	ok = okN && fresh(setting(got, "", "counts")) && strings.HasSuffix(setting(got, "", "hook"), "nopSamplingHook") && setting(got, "", "first") == "conv[uint64]("+nw.Params[2].Name()+")" && setting(got, "", "thereafter") == "conv[uint64]("+nw.Params[3].Name()+")" && setting(got, "", "tick") == nw.Params[1].Name() && setting(got, "", "Core") == nw.Params[0].Name()
 	c.Check(ok, "R11.3", nw.String(), "constructor", nw.Pos(), "the constructor allocates one counter table, defaults the hook to the no-op and stores tick/first/thereafter as given (%v)", got)
 	c11CtorOK, c11CtorGot = ok, fmt.Sprint(got)
@@ -475,9 +480,21 @@ var (
 )
 
 func c11Key(c *Ctx, minL int64) {
-	g := c.Method(CorePath, "counters", "get")
-	h := c.Func(CorePath, "fnv32a")
-	if !c.Anchor("R11.5", "zapcore.counters.get/fnv32a", g != nil && h != nil) {
+	// the hash of the message: the func(string) uint32 of zapcore that sampler.Check (or a helper of it) calls
+	var h *ssa.Function
+	if chk := c.Method(CorePath, "sampler", "Check"); chk != nil {
+		for _, cl := range CallsDeep(chk) {
+			sc := StaticCallee(cl)
+			if sc == nil || sc.Pkg == nil || sc.Pkg.Pkg.Path() != CorePath || sc.Signature.Recv() != nil {
+				continue
+			}
+			ps, rs := sc.Signature.Params(), sc.Signature.Results()
+			if ps.Len() == 1 && rs.Len() == 1 && TypeName(ps.At(0).Type()) == "string" && TypeName(rs.At(0).Type()) == "uint32" {
+				h = sc
+			}
+		}
+	}
+	if !c.Anchor("R11.5", "the message hash func(string) uint32 called from zapcore.sampler.Check", h != nil) {
 		return
 	}
 	// hash loop: an index running over [0, len(s)) in steps of 1, reading s[i] (or b[i] of b = []byte(s)); a range
@@ -838,4 +855,39 @@ func c11Stamped(c *Ctx, rule string) {
 		ex = bad[0]
 	}
 	c.Check(len(bad) == 0 && nChecks > 0, rule, name, "stamped-before-check", fn.Pos(), "on every path the entry handed to Core.Check already carries Time = clock.Now() (%d event sequences; offending: %s)", len(seqs), ex)
+}
+
+// freshAlloc: on this path v is an object allocated right here (new, &T{}, or the result of a function of the analysed
+// packages all of whose returns are such allocations).
+func freshAlloc(st *ConcState, v ssa.Value, depth int) bool {
+	for k := 0; k < 12; k++ {
+		nx := st.Step(v)
+		if nx == nil {
+			break
+		}
+		v = nx
+	}
+	switch x := v.(type) {
+	case *ssa.Alloc:
+		return x.Heap
+	case *ssa.Call:
+		sc := x.Call.StaticCallee()
+		if sc == nil || !curProgRoot(sc) || len(sc.Blocks) == 0 || depth > 3 {
+			return false
+		}
+		n := 0
+		for _, r := range Returns(sc) {
+			rv := RetVals(r)
+			if len(rv) != 1 {
+				return false
+			}
+			a, isA := Strip(rv[0]).(*ssa.Alloc)
+			if !isA || !a.Heap {
+				return false
+			}
+			n++
+		}
+		return n > 0
+	}
+	return false
 }
